@@ -21,6 +21,9 @@ import hpack
 from hpack.exceptions import HPACKDecodingError
 
 KINDS = ['bytes', 'bytearray', 'mv-bytearray', 'mv-bytes', 'mv-readonly']
+# further buffer kinds, used only on blocks without multi-octet integers (a signed-char view makes the unmodified
+# library misread continuation octets - outside every stated property - so those blocks are kept away from it)
+EXOTIC = ['mv-cast-b', 'array-B', 'mv-array-B', 'mv-slice', 'mv-2step']
 
 
 def lit(rnd, pat, n, v, h=None):
@@ -90,6 +93,17 @@ def wrap(kind, blk):
         return memoryview(ba), ba, ba
     if kind == 'mv-readonly':
         return memoryview(ba).toreadonly(), ba, ba
+    if kind == 'mv-cast-b':
+        return memoryview(ba).cast('b'), ba, ba
+    if kind in ('array-B', 'mv-array-B'):
+        import array
+        ar = array.array('B', blk)
+        return (ar if kind == 'array-B' else memoryview(ar)), ar, None
+    if kind == 'mv-slice':            # a window into a larger receive buffer
+        big = bytearray(b'\xee' * 7 + blk + b'\xee' * 9)
+        return memoryview(big)[7:7 + len(blk)], big, big
+    if kind == 'mv-2step':            # a view of a view
+        return memoryview(memoryview(ba)[0:len(blk)]), ba, ba
     b = bytes(bytearray(blk))
     return memoryview(b), b, None
 
@@ -193,14 +207,32 @@ def retention_history(kind_seq):
             pass
         n += 1
         del obj, owner, mut
-    gc.collect()
-    held = deep_size(d) - base
-    ents = list(getattr(d.header_table, 'dynamic_entries', []))
-    bound = d.header_table_size + 200 * (len(ents) + 1) + 4096
-    if held > bound:
-        fails.append({'history': -1, 'step': n, 'sig': 'retained-over-table',
-                      'text': 'after %d blocks of ~30 kB the decoder retains %d octets beyond a fresh one; table size %d with %d entries allows about %d' % (
-                          n, held, d.header_table_size, len(ents), bound)})
+    def measure(what):
+        gc.collect()
+        held = deep_size(d) - base
+        ents = list(getattr(d.header_table, 'dynamic_entries', []))
+        bound = d.header_table_size + 200 * (len(ents) + 1) + 4096
+        if held > bound:
+            fails.append({'history': -1, 'step': n, 'sig': 'retained-over-table',
+                          'text': '%s the decoder retains %d octets beyond a fresh one; table size %d with %d entries allows about %d' % (
+                              what, held, d.header_table_size, len(ents), bound)})
+    measure('after %d blocks of ~30 kB' % n)
+    # ... and right after a decode that RAISED (bad index / truncation at the very end of a 60 kB block)
+    for tail, what in ((b'\xc5', 'a bad index'), (b'\x00\x05ab', 'a truncated string'), (b'\x3f\xff\xff\xff\x7f', 'a table-size update after a field')):
+        blk = b'\x40' + int_octets(3, 7) + b'big' + int_octets(60000, 7) + b'w' * 60000 + tail
+        for kind in kind_seq:
+            obj, owner, mut = wrap(kind, blk)
+            try:
+                d.decode(obj, raw=True)
+            except HPACKDecodingError:
+                pass
+            except Exception:
+                pass
+            n += 1
+            del obj, owner, mut
+            measure('after a 60 kB %s block refused for %s' % (kind, what))
+            if fails:
+                return n, fails
     return n, fails
 
 
@@ -220,6 +252,10 @@ def main():
         [('bytes', b'\x40\x03abc\x03xyz' + b'\x00\x01a' + int_octets(200000, 7) + b'v' * 200000), ('bytes', b'\xbe')],
         [('bytearray', b'\x00\x03abc\x03xyz\x10\x03abc\x03xyz'), ('bytes', b'\x82')],
         [('bytearray', b'\x40\x03abc'), ('bytes', b'\x82')],
+        [('mv-cast-b', b'\x40\x03abc\x03xyz'), ('bytes', b'\xbe'), ('mv-cast-b', b'\x40\x01k\x05vvvvv\xbe'), ('bytes', b'\xbe\xbf')],
+        [('array-B', b'\x40\x03abc\x03xyz'), ('bytes', b'\xbe'), ('mv-array-B', b'\x40\x01k\x05vvvvv\xbe'), ('bytes', b'\xbe\xbf')],
+        [('mv-slice', b'\x40\x03abc\x03xyz'), ('bytes', b'\xbe'), ('mv-2step', b'\x40\x01k\x05vvvvv\xbe'), ('bytes', b'\xbe\xbf'), ('mv-slice', b'\x40\x03abc'), ('bytes', b'\xbe')],
+        [('mv-cast-b', b'\x40\x03abc\x03xyz\x00\x05ab'), ('bytes', b'\xbe')],
         # many entries, then a block that inserts three and evicts
         [('bytearray', b''.join(b'\x40\x04' + bytes([97 + i % 26, 97 + i // 26, 99, 100]) + b'\x5c' + b'p' * 92 for i in range(30))),
          ('bytearray', b'\x40\x02n1\x5e' + b'q' * 94 + b'\x40\x02n2\x5e' + b'r' * 94 + b'\x40\x02n3\x5e' + b's' * 94), ('bytes', b'\xbe\xbf\xc0\xc1')],
